@@ -57,6 +57,10 @@ Definition post0 (s s' : cstate) (o : couts) : Prop :=
     = Vres (c_res s) + 2 ^ Fpos s * c_anorm s + 2 ^ (Fpos s + c_atake s) * c_acarry s /\
   Z.abs (c_rcarry s') <= 2 ^ (wd - 2) + 1.
 
+(* interval form of a magnitude bound: friendlier to lia than Z.abs (no case split) *)
+Local Notation ivl H := (proj1 (Z.abs_le _ _) H).
+Local Notation absl H := (proj2 (Z.abs_le _ _) H).
+
 Theorem cross_inner_last : forall (fuel : nat) (s : cstate),
   pre0 s -> c_atake s <= Z.of_nat fuel ->
   post0 s (fst (cross_inner wd fuel rb ab 0 s)) (snd (cross_inner wd fuel rb ab 0 s)).
@@ -65,39 +69,186 @@ Proof.
   { destruct Hpre as (_ & _ & Ha & _). lia. }
   destruct Hpre as (Hsh & Hr & Ha & Hn & Hc & Hrc & Hpos & X & low & HX & EX & Hlow).
   destruct Hsh as (Sl & Sr & Sz & Sb).
+  apply Z.abs_le in Hn, Hc, HX, Hlow, Sb.
   cbn [cross_inner].
   set (w := Z.min (Z.min ab (c_atake s)) (c_racc s)).
   assert (Hw : 1 <= w /\ w <= c_atake s /\ w <= c_racc s /\ (w = c_atake s \/ w = c_racc s))
-    by (unfold w; lia).
+    by (unfold w; clear - Ha Hr Hab; lia).
   destruct (Z.eqb_spec w 0) as [E0|_]; [lia|].
+  clearbody w.
   set (scale := rb - c_racc s).
-  set (r := nthZ (c_res s) (c_rlimb s)).
+  set (r := nthZ (c_res s) (c_rlimb s)) in *.
+  assert (HM2 : 2 <= 2 ^ (wd - 2)).
+  { assert (2 ^ 1 <= 2 ^ (wd - 2)) by (apply pow2_le_mono; lia). exact H. }
   assert (Hn62 : Z.abs (c_anorm s) <= 2 ^ (wd - 2)).
-  { assert (2 ^ c_atake s <= 2 ^ (wd - 2)) by (apply pow2_le_mono; lia). lia. }
+  { assert (2 ^ c_atake s <= 2 ^ (wd - 2)) by (apply pow2_le_mono; lia). apply Z.abs_le. lia. }
   destruct (extractW wd w scale r (c_anorm s) Hwd ltac:(lia) ltac:(unfold scale; lia) ltac:(unfold scale; lia)
-              Hn62 Sb) as [Ex Hrb'].
-  rewrite Ex. clear Ex.
+              Hn62 (absl Sb)) as [Ex Hrb'].
+  rewrite Ex. clear Ex Hn62.
   set (d := wrap w (c_anorm s)) in *. set (n1 := bdiv w (c_anorm s)).
   pose proof (wrap_bdiv w (c_anorm s) ltac:(lia)) as Hdec. fold d n1 in Hdec.
   pose proof (wrap_range w (c_anorm s) ltac:(lia)) as Hdr. fold d in Hdr.
-  assert (Hn1 : Z.abs n1 <= 2 ^ (c_atake s - w)) by (apply rest_bound; lia).
+  assert (Hn1 : Z.abs n1 <= 2 ^ (c_atake s - w)) by (apply rest_bound; [lia|exact (absl Hn)]).
+  clearbody d n1.
   cbn [c_res c_anorm c_acarry c_rcarry c_atake c_racc c_rlimb].
   set (atake1 := c_atake s - w). set (racc1 := c_racc s - w).
   set (res1 := upd (c_res s) (c_rlimb s) (r + d * 2 ^ scale)).
   assert (Hz : 0 <= atake1 /\ 0 <= racc1 /\ (atake1 = 0 \/ racc1 = 0) /\ atake1 < c_atake s)
-    by (unfold atake1, racc1; lia).
+    by (unfold atake1, racc1; clear - Hw; lia).
   assert (L1 : length res1 = rsz) by (unfold res1; rewrite upd_length; exact Sl).
   assert (V1 : Vres res1 = Vres (c_res s) + 2 ^ Fpos s * d).
   { unfold res1. rewrite Vres_upd by auto. fold r.
     rewrite <- (weight_atW wd rb Hrb rsz s Sr ltac:(lia)). fold scale. ring. }
   assert (N1r : nthZ res1 (c_rlimb s) = r + d * 2 ^ scale).
-  { unfold res1. rewrite nth_upd, Sl. destruct (Nat.eqb_spec (c_rlimb s) (c_rlimb s)); [|lia].
-    destruct (Nat.ltb_spec (c_rlimb s) rsz); [reflexivity|lia]. }
+  { unfold res1. rewrite nth_upd, Sl. rewrite Nat.eqb_refl.
+    destruct (Nat.ltb_spec (c_rlimb s) rsz) as [_|Hge]; [reflexivity|clear - Hge Sr; lia]. }
   assert (N1z : forall i, (i < c_rlimb s)%nat -> nthZ res1 i = 0).
-  { intros i Hi. unfold res1. rewrite nth_upd. destruct (Nat.eqb_spec i (c_rlimb s)); [lia|].
+  { intros i Hi. unfold res1. rewrite nth_upd. destruct (Nat.eqb_spec i (c_rlimb s)) as [Ei|_]; [clear - Ei Hi; lia|].
     cbn [andb]. apply Sz; exact Hi. }
-  assert (Esw : scale + w = rb - racc1) by (unfold scale, racc1; lia).
+  assert (Esw : scale + w = rb - racc1) by (unfold scale, racc1; ring).
   rewrite Bool.orb_true_r. cbn [Nat.eqb andb].
-  Show.
-Abort.
+  pose proof (Fpos_nonnegW wd rb Hrb rsz s Sr ltac:(lia)) as HF0.
+  destruct (Z.eqb_spec atake1 0) as [Et0|Et0].
+  - (* exit: the digit is consumed *)
+    assert (Ew : w = c_atake s) by (unfold atake1 in Et0; clear - Et0; lia).
+    assert (D1 : c_anorm s = d + 2 ^ c_atake s * n1) by (rewrite <- Ew; symmetry; exact Hdec).
+    assert (D2 : Z.abs d <= 2 ^ c_atake s - 1) by (rewrite <- Ew; apply bal_abs; [lia|exact Hdr]).
+    assert (D3 : - 1 <= n1 <= 1).
+    { replace (c_atake s - w) with 0 in Hn1 by (clear - Ew; lia). apply Z.abs_le in Hn1. exact Hn1. }
+    clear Hn1.
+    assert (Ewadd : wadd wd (c_acarry s) n1 = c_acarry s + n1).
+    { unfold wadd. apply wrap_id; [lia|]. unfold in_range. rewrite (pow_wd1 wd Hwd). clear - Hc D3 HM2. lia. }
+    rewrite Ewadd. set (ac := c_acarry s + n1).
+    set (e := ab - c_atake s) in *.
+    assert (He : 0 <= e) by (unfold e; lia).
+    assert (Eab : 2 ^ ab = 2 ^ e * 2 ^ c_atake s) by (rewrite <- pow2_add by lia; f_equal; unfold e; ring).
+    assert (Hac : Z.abs ac <= 2 ^ (wd - 2)).
+    { apply (carry_after_pieces ab (2 ^ (wd - 2)) X (low + 2 ^ e * d) ac); [lia|lia|exact (absl HX)| |].
+      - rewrite EX, D1, Eab. unfold ac. ring.
+      - rewrite Eab. apply pt_bound2; [exact He|lia|exact (absl Hlow)|exact D2]. }
+    clear HX EX Hlow D2 X low.
+    (* position: the current limb is the one that contains the top of the stream *)
+    assert (EF1 : Fpos s + c_atake s = (zn rsz - zn (c_rlimb s)) * rb - racc1).
+    { unfold C08CrossInner.Fpos, racc1. rewrite Ew. ring. }
+    assert (Hrl : zn (c_rlimb s) * rb <= E < (zn (c_rlimb s) + 1) * rb).
+    { clear - EF1 Hpos Hz Hw Hr. unfold racc1 in *. lia. }
+    assert (HR0 : 0 <= (zn rsz - zn (c_rlimb s)) * rb) by (apply Z.mul_nonneg_nonneg; unfold zn; lia).
+    assert (HW0 : 0 <= (zn rsz - 1 - zn (c_rlimb s)) * rb) by (apply Z.mul_nonneg_nonneg; unfold zn; lia).
+    assert (HFa : 0 <= Fpos s + c_atake s) by (clear - HF0 Ha; lia).
+    assert (Hr10 : 0 <= racc1 <= rb) by (clear - Hz Hw Hr; unfold racc1 in *; lia).
+    set (Wt := 2 ^ ((zn rsz - 1 - zn (c_rlimb s)) * rb)).
+    assert (ERW : 2 ^ ((zn rsz - zn (c_rlimb s)) * rb) = 2 ^ rb * Wt).
+    { unfold Wt. rewrite <- pow2_add by (clear - Hrb HW0; lia). f_equal. ring. }
+    assert (EF1p : 2 ^ (Fpos s + c_atake s) = 2 ^ Fpos s * 2 ^ c_atake s) by (apply pow2_add; [exact HF0|clear - Ha; lia]).
+    assert (ERr : 2 ^ ((zn rsz - zn (c_rlimb s)) * rb) = 2 ^ (Fpos s + c_atake s) * 2 ^ racc1).
+    { rewrite <- pow2_add by (clear - HFa Hr10; lia). f_equal. rewrite EF1. ring. }
+    set (x0 := nthZ res1 (c_rlimb s)) in *.
+    assert (Hx0 : Z.abs x0 <= 2 ^ (rb - racc1) - 1) by (rewrite N1r, <- Esw; exact Hrb').
+    clear Hrb'.
+    (* the common tail: normalise the limb `limb2` and hand over rc + ac2 *)
+    assert (Htail : forall res2 limb2 d2 ac2, length res2 = rsz -> nthZ res2 (c_rlimb s) = limb2 ->
+      (forall i, (i < c_rlimb s)%nat -> nthZ res2 i = 0) ->
+      Vres res2 = Vres res1 + d2 * 2 ^ (Fpos s + c_atake s) -> ac = d2 + 2 ^ racc1 * ac2 ->
+      Z.abs limb2 <= 2 ^ rb - 1 -> Z.abs ac2 <= 2 ^ (wd - 2) ->
+      post0 s
+        (fst (let '(x, rc) := middle_step_assign wd rb 0 (nthZ res2 (c_rlimb s)) (c_rcarry s) in
+              ({| c_res := upd res2 (c_rlimb s) x; c_anorm := n1; c_acarry := ac2; c_rcarry := wadd wd rc ac2;
+                  c_atake := atake1; c_racc := racc1; c_rlimb := c_rlimb s |}, OuterBreak)))
+        (snd (let '(x, rc) := middle_step_assign wd rb 0 (nthZ res2 (c_rlimb s)) (c_rcarry s) in
+              ({| c_res := upd res2 (c_rlimb s) x; c_anorm := n1; c_acarry := ac2; c_rcarry := wadd wd rc ac2;
+                  c_atake := atake1; c_racc := racc1; c_rlimb := c_rlimb s |}, OuterBreak)))).
+    { intros res2 limb2 d2 ac2 L2 N2 Z2 V2 Eac Hl2 Hac2. rewrite N2, Hrc.
+      assert (Hl2M : Z.abs limb2 <= 2 ^ (wd - 2)).
+      { assert (2 ^ rb <= 2 ^ (wd - 2)) by (apply pow2_le_mono; lia). clear - H Hl2. lia. }
+      unfold middle_step_assign.
+      rewrite (mcW wd rb Hrb 0 limb2 0 ltac:(lia) Hl2M ltac:(clear - HM2; cbn [Z.abs]; lia)).
+      change (2 ^ 0) with 1. rewrite Z.mul_1_r, Z.add_0_r. cbn [fst snd].
+      pose proof (wrap_bdiv rb limb2 ltac:(lia)) as Hdl.
+      assert (Hrc1 : Z.abs (bdiv rb limb2) <= 1).
+      { replace 1 with (2 ^ (rb - rb)) by (rewrite Z.sub_diag; reflexivity). apply rest_bound; [lia|]. clear - Hl2. lia. }
+      apply Z.abs_le in Hrc1, Hac2.
+      assert (Ewr : wadd wd (bdiv rb limb2) ac2 = bdiv rb limb2 + ac2).
+      { unfold wadd. apply wrap_id; [lia|]. unfold in_range. rewrite (pow_wd1 wd Hwd). clear - Hrc1 Hac2 HM2. lia. }
+      rewrite Ewr. unfold post0. cbn [c_res c_rcarry c_rlimb].
+      split; [reflexivity|]. split; [rewrite upd_length; exact L2|]. split; [exact Sr|]. split; [exact Hrl|].
+      split.
+      { intros i Hi. rewrite nth_upd. destruct (Nat.eqb_spec i (c_rlimb s)) as [Ei|_]; [clear - Ei Hi; lia|].
+        cbn [andb]. apply Z2; exact Hi. }
+      split; [|apply Z.abs_le; clear - Hrc1 Hac2; lia].
+      rewrite Vres_upd by (auto; lia). rewrite N2. fold Wt.
+      apply (handover_identity (Vres (c_res s)) (Vres res1) (Vres res2) _ (2 ^ Fpos s) (2 ^ c_atake s)
+               (2 ^ (Fpos s + c_atake s)) (2 ^ racc1) _ (2 ^ rb) Wt d n1 (c_anorm s) (c_acarry s) ac d2 ac2 limb2
+               (wrap rb limb2) (bdiv rb limb2)); try assumption; try reflexivity.
+      symmetry. exact Hdl. }
+    destruct (Z.eqb_spec racc1 0) as [Er0|Er0].
+    + (* the limb is already full *)
+      apply (Htail res1 x0 0 ac L1 eq_refl N1z).
+      * ring.
+      * rewrite Er0. change (2 ^ 0) with 1. ring.
+      * rewrite Er0, Z.sub_0_r in Hx0. exact Hx0.
+      * exact Hac.
+    + (* partial fill from the a-carry *)
+      assert (Hr1 : 1 <= racc1) by (clear - Er0 Hr10; lia).
+      destruct (extractW wd racc1 (rb - racc1) x0 ac Hwd Hr1 ltac:(clear - Hr10; lia) ltac:(clear - Hrb; lia) Hac Hx0)
+        as [Ex2 Hb2].
+      rewrite Ex2.
+      pose proof (wrap_bdiv racc1 ac Hr1) as Hd2.
+      apply (Htail (upd res1 (c_rlimb s) (x0 + wrap racc1 ac * 2 ^ (rb - racc1)))
+                   (x0 + wrap racc1 ac * 2 ^ (rb - racc1)) (wrap racc1 ac) (bdiv racc1 ac)).
+      * rewrite upd_length; exact L1.
+      * rewrite nth_upd, L1. rewrite Nat.eqb_refl.
+        destruct (Nat.ltb_spec (c_rlimb s) rsz) as [_|Hge]; [reflexivity|clear - Hge Sr; lia].
+      * intros i Hi. rewrite nth_upd. destruct (Nat.eqb_spec i (c_rlimb s)) as [Ei|_]; [clear - Ei Hi; lia|].
+        cbn [andb]. apply N1z; exact Hi.
+      * rewrite Vres_upd by (auto; lia). fold x0. fold Wt.
+        assert (EWs : 2 ^ (rb - racc1) * Wt = 2 ^ (Fpos s + c_atake s)).
+        { unfold Wt. rewrite <- pow2_add by (clear - Hr10 HW0; lia). f_equal. rewrite EF1. ring. }
+        rewrite <- EWs. ring.
+      * clear - Hd2. lia.
+      * replace (rb - racc1 + racc1) with rb in Hb2 by ring. exact Hb2.
+      * assert (H1 : Z.abs (bdiv racc1 ac) <= 2 ^ (wd - 2 - racc1)) by (apply rest_bound; [clear - Hr1 Hr10 Hrb; lia|exact Hac]).
+        assert (H2 : 2 ^ (wd - 2 - racc1) <= 2 ^ (wd - 2)) by (apply pow2_le_mono; clear - Hr1 Hr10 Hrb; lia).
+        clear - H1 H2. lia.
+  - (* the digit is not exhausted: the res limb is full, move on *)
+    assert (Hr0 : racc1 = 0) by (clear - Hz Et0; lia).
+    destruct (Nat.eqb_spec (c_rlimb s) 0) as [Erl|Erl].
+    { exfalso. clear - Erl Hr0 Hpos Hw HE. unfold C08CrossInner.Fpos, racc1 in *. rewrite Erl in Hpos.
+      change (zn 0) with 0 in Hpos. lia. }
+    set (s2 := {| c_res := res1; c_anorm := n1; c_acarry := c_acarry s; c_rcarry := c_rcarry s;
+                  c_atake := atake1; c_racc := racc1 + rb; c_rlimb := (c_rlimb s - 1)%nat |}).
+    assert (F2 : Fpos s2 = Fpos s + w).
+    { unfold C08CrossInner.Fpos, s2. cbn [c_rlimb c_racc]. unfold racc1, zn. rewrite Nat2Z.inj_sub by (clear - Erl; lia).
+      change (Z.of_nat 1) with 1. ring. }
+    assert (Sh2 : shape s2).
+    { unfold C08CrossInner.shape, s2. cbn [c_res c_rlimb c_racc]. split; [exact L1|]. split; [clear - Sr Erl; lia|].
+      split; [intros i Hi; apply N1z; clear - Hi Erl; lia|].
+      rewrite N1z by (clear - Erl; lia). rewrite Hr0. replace (rb - (0 + rb)) with 0 by (clear; lia).
+      cbn. clear; lia. }
+    set (e := ab - c_atake s) in *.
+    assert (He : 0 <= e) by (unfold e; clear - Ha; lia).
+    assert (Hat1 : 0 < atake1 <= ab) by (clear - Hz Et0 Ha; lia).
+    assert (Hpre2 : pre0 s2).
+    { unfold pre0. split; [exact Sh2|]. unfold s2; cbn [c_racc c_atake c_anorm c_acarry c_rcarry].
+      split; [clear - Hr0 Hrb; lia|]. split; [exact Hat1|]. split; [exact Hn1|]. split; [exact (absl Hc)|].
+      split; [exact Hrc|].
+      fold s2. rewrite F2. split; [unfold atake1; clear - Hpos; lia|].
+      exists X, (low + 2 ^ e * d).
+      assert (Ee : 2 ^ (ab - atake1) = 2 ^ e * 2 ^ w).
+      { rewrite <- pow2_add by (clear - He Hw; lia). f_equal. unfold e, atake1. ring. }
+      split; [exact (absl HX)|]. split.
+      - rewrite EX, Ee. rewrite <- Hdec. ring.
+      - rewrite Ee. apply pt_bound2; [exact He|clear - Hw; lia|exact (absl Hlow)|apply bal_abs; [clear - Hw; lia|exact Hdr]]. }
+    destruct (IH s2 Hpre2 ltac:(unfold s2; cbn [c_atake]; clear - Hz Hf; lia)) as (P1 & P2 & P3 & P4 & P5 & P6 & P7).
+    fold s2. set (s' := fst (cross_inner wd f rb ab 0 s2)) in *.
+    set (o := snd (cross_inner wd f rb ab 0 s2)) in *.
+    unfold post0. split; [exact P1|]. split; [exact P2|]. split; [exact P3|]. split; [exact P4|].
+    split; [exact P5|]. split; [|exact P7].
+    rewrite P6. change (c_res s2) with res1. change (c_anorm s2) with n1. change (c_atake s2) with atake1.
+    change (c_acarry s2) with (c_acarry s).
+    rewrite F2, V1.
+    assert (EFw : 2 ^ (Fpos s + w) = 2 ^ Fpos s * 2 ^ w) by (apply pow2_add; [exact HF0|clear - Hw; lia]).
+    replace (Fpos s + w + atake1) with (Fpos s + c_atake s) by (unfold atake1; ring).
+    rewrite EFw. rewrite <- Hdec. ring.
+Qed.
+
 End InnerLast.
